@@ -952,7 +952,10 @@ func (g *dgen) showcase() {
 		&spec.Attr{Name: "k_pattern", Type: &spec.Type{Kind: spec.String}, Val: &spec.Validation{Pattern: "^[a-f0-9]{4,8}$"}},
 		&spec.Attr{Name: "k_enum", Type: &spec.Type{Kind: spec.String}, Val: &spec.Validation{Enum: []any{"red", "green", "blue"}}},
 		&spec.Attr{Name: "k_range", Type: &spec.Type{Kind: spec.Int}, Val: &spec.Validation{Min: fp(3), Max: fp(900)}},
-		&spec.Attr{Name: "k_len", Type: &spec.Type{Kind: spec.String}, Val: &spec.Validation{MinLength: ip(3), MaxLength: ip(40)}})
+		&spec.Attr{Name: "k_len", Type: &spec.Type{Kind: spec.String}, Val: &spec.Validation{MinLength: ip(3), MaxLength: ip(40)}},
+		// validations no value satisfies (legal, if unusual): the example generator gives up after a fixed number of attempts
+		&spec.Attr{Name: "k_conflict", Type: &spec.Type{Kind: spec.String}, Val: &spec.Validation{Format: "email", Pattern: "^[0-9]+$"}},
+		&spec.Attr{Name: "k_conflict2", Type: &spec.Type{Kind: spec.String}, Val: &spec.Validation{Format: "ipv4", Pattern: "^fe80:"}})
 	u := &spec.UserType{Name: "Showcase", Attr: &spec.Attr{Type: o}}
 	g.d.Types = append(g.d.Types, u)
 	svc := g.d.Services[0]
